@@ -64,7 +64,7 @@ def run(eng, rep, tier):
                   "alternative leaves its children in the returned tree", s,
                   site=(ws[0].site.to_json() if ws else site_of(prog, f, f.node)))
         ok2 = any(ev.kind == "ret" and ev.value is not None and ev.value.has_const() and ev.value.const is True
-                  and any("to_expand is None" in fct[0] and fct[1] for fct in ev.facts) for ev in s.events)
+                  and any(fct[0].endswith(" is None") and fct[1] for fct in ev.facts) for ev in s.events)
         ob.decide("DOM", "C15.2", f, "success-iff-fully-expanded-and-matching", ok2 and
                   any(c.callee.endswith("_match") for c, _ in [(e, 0) for e in s.events if e.kind == "call"]),
                   "success is reported when nothing is left to expand and the expansion matched the word",
